@@ -86,6 +86,20 @@ inline std::vector<A3> tuples(std::size_t N, ll lo, ll hi, ll filler)
   return r;
 }
 
+// every tuple with component i in 0..hi[i] for the first N slots (slot 0 fastest); unused slots = 0
+inline std::vector<A3> tuples_upto(std::size_t N, A3 const &hi)
+{
+  A3 h{0, 0, 0};
+  for (std::size_t i = 0; i < N; ++i)
+    h[i] = hi[i];
+  std::vector<A3> r;
+  for (ll z = 0; z <= h[2]; ++z)
+    for (ll y = 0; y <= h[1]; ++y)
+      for (ll x = 0; x <= h[0]; ++x)
+        r.push_back(A3{x, y, z});
+  return r;
+}
+
 // REFERENCE: the positions p with mn <= p < sp component-wise, in storage order (x fastest, then y, then z);
 // none if any component of mn is not below sp.  Unused slots of the result are 0.
 inline std::vector<A3> ref_range(std::size_t N, A3 const &mn, A3 const &sp)
@@ -153,9 +167,10 @@ inline std::vector<A3> margin_positions(std::size_t N, A3 const &sz)
 inline int enc(A3 const &p) { return static_cast<int>(1 + p[0] + 7 * p[1] + 49 * p[2]); }
 
 // tier bounds: quick = the bound stated in the property and DESIGN.md section 2 (extents 0..4, min/sup 0..5);
-// thorough goes one further in every direction (extents 0..5, min/sup 0..6)
-inline ll max_extent(std::size_t) { return vrt::quick() ? 4 : 5; }
-inline ll max_minsup(std::size_t) { return vrt::quick() ? 5 : 6; }
+// thorough goes two further in every direction (extents 0..6, min/sup 0..7; enc() needs components < 7 and
+// unsigned char needs contents <= 255, both hold)
+inline ll max_extent(std::size_t) { return vrt::quick() ? 4 : 6; }
+inline ll max_minsup(std::size_t) { return vrt::quick() ? 5 : 7; }
 
 // non-triviality of a (min, sup) case: at least two positions are visited (a step, for N > 1 usually a carry,
 // happens), or the range is empty because of exactly one component although N > 1 (any/all confusion shows here)
